@@ -1,5 +1,5 @@
 """C20: registries behave as the sets and maps they represent (RWA side). Harnesses: /verif/kani/src/registries.rs and
-/verif/kani/src/registries/{claim_issuer,cti,binder}.rs. (The smart-account context-rule registry is a separate family.)"""
+/verif/kani/src/registries/{claim_issuer,cti,binder,irs,docs,compliance}.rs. (The smart-account context-rule registry is a separate family.)"""
 from registry import K
 
 PROFILES = {
@@ -11,6 +11,13 @@ PROFILES = {
     'reg_ci21': {'features': ['cap21', 'vw96', 'traphook']},
     # token binder at the bucket boundary: vectors of BUCKET_SIZE = 100 addresses (101 words)
     'reg_edge': {'features': ['cap100', 'vw128']},
+    # claim topics and issuers: universe of 3 topics x 3 issuers, vectors of 3
+    'reg_cap3': {'features': ['cap3']},
+    # identity registry storage: IdentityProfile with 2 country entries (each carrying an optional 2-entry metadata map) = 32 words;
+    # country-data events of 32 words
+    'reg_irs': {'features': ['cap2', 'vw48', 'ew32']},
+    # document manager: bucket of 3 (name, document) entries = 37 words; DocumentUpdated event = 12 words
+    'reg_docs': {'features': ['cap3', 'vw48', 'ew32']},
 }
 
 CI = 'rwa::claim_issuer::'
@@ -47,24 +54,24 @@ CT = 'rwa::claim_topics_and_issuers::storage::'
 CT_RD = [CT + 'get_claim_topics', CT + 'get_trusted_issuers', CT + 'get_claim_topic_issuers', CT + 'get_trusted_issuer_claim_topics']
 CT_BOUNDS = ('one call from an ARBITRARY stored state satisfying the relation invariant over a universe of 3 topics (symbolic pairwise different '
              'u32 values) and 3 issuer addresses: ClaimTopics, TrustedIssuers, IssuerClaimTopics(i), ClaimTopicIssuers(t) = arbitrary arrangements '
-             'of 0..3 universe elements, every entry absent or present; argument vectors of 0..4 arbitrary u32; ledger/TTLs full u32; '
-             'vector capacity 4, NS=12, unwind 14')
+             'of 0..3 universe elements, every entry absent or present; argument vectors of 0..3 arbitrary u32; ledger/TTLs full u32; '
+             'vector capacity 3, NS=12, unwind 13')
 
 CTI = [
-    K('registries::cti::add_claim_topic_step', functions=[CT + 'add_claim_topic', 'emit_claim_topic_added'] + CT_RD[:1], bounds=CT_BOUNDS),
-    K('registries::cti::remove_claim_topic_step', functions=[CT + 'remove_claim_topic', 'emit_claim_topic_removed'] + CT_RD[:2], bounds=CT_BOUNDS),
-    K('registries::cti::add_trusted_issuer_step',
+    K('registries::cti::add_claim_topic_step', 'reg_cap3', functions=[CT + 'add_claim_topic', 'emit_claim_topic_added'] + CT_RD[:1], bounds=CT_BOUNDS),
+    K('registries::cti::remove_claim_topic_step', 'reg_cap3', functions=[CT + 'remove_claim_topic', 'emit_claim_topic_removed'] + CT_RD[:2], bounds=CT_BOUNDS),
+    K('registries::cti::add_trusted_issuer_step', 'reg_cap3',
       functions=[CT + 'add_trusted_issuer', CT + 'validate_topics_exist', CT + 'validate_no_duplicate_topics', 'emit_trusted_issuer_added'] + CT_RD[:3],
       bounds=CT_BOUNDS),
-    K('registries::cti::remove_trusted_issuer_step', functions=[CT + 'remove_trusted_issuer', 'emit_trusted_issuer_removed'] + CT_RD, bounds=CT_BOUNDS),
-    K('registries::cti::remove_trusted_issuer_accepts', must_succeed=True, functions=[CT + 'remove_trusted_issuer'] + CT_RD,
+    K('registries::cti::remove_trusted_issuer_step', 'reg_cap3', functions=[CT + 'remove_trusted_issuer', 'emit_trusted_issuer_removed'] + CT_RD, bounds=CT_BOUNDS),
+    K('registries::cti::remove_trusted_issuer_accepts', 'reg_cap3', must_succeed=True, functions=[CT + 'remove_trusted_issuer'] + CT_RD,
       bounds=CT_BOUNDS + '; the issuer is listed; ledger sequence < 2^32 - 30 days'),
-    K('registries::cti::update_issuer_claim_topics_step',
+    K('registries::cti::update_issuer_claim_topics_step', 'reg_cap3', tier='thorough', timeout={'thorough': 2400},
       functions=[CT + 'update_issuer_claim_topics', CT + 'is_trusted_issuer', CT + 'validate_topics_exist', CT + 'validate_no_duplicate_topics',
                  'emit_issuer_topics_updated'] + CT_RD, bounds=CT_BOUNDS),
-    K('registries::cti::getters_agree', functions=CT_RD + [CT + 'is_trusted_issuer', CT + 'has_claim_topic'],
+    K('registries::cti::getters_agree', 'reg_cap3', functions=CT_RD + [CT + 'is_trusted_issuer', CT + 'has_claim_topic'],
       bounds=CT_BOUNDS + '; witness issuer among 5 addresses (3 of the universe + 2 strangers), witness topic of the universe or any other value'),
-    K('registries::cti::map_getter_agrees', must_succeed=True, functions=[CT + 'get_claim_topics_and_issuers'] + CT_RD[:3] + [CT + 'is_trusted_issuer'],
+    K('registries::cti::map_getter_agrees', 'reg_cap3', must_succeed=True, functions=[CT + 'get_claim_topics_and_issuers'] + CT_RD[:3] + [CT + 'is_trusted_issuer'],
       bounds=CT_BOUNDS + '; ledger sequence < 2^32 - 30 days'),
 ]
 
@@ -81,9 +88,11 @@ BINDER = [
     K('registries::binder::unbind_token_step', functions=[TB + 'unbind_token', TB + 'get_token_index', TB + 'get_token_by_index', TB + 'emit_token_unbound'] + TB_RD,
       bounds=TB_BOUNDS),
     K('registries::binder::bind_tokens_step', functions=[TB + 'bind_tokens', TB + 'linked_tokens', TB + 'emit_token_bound'] + TB_RD,
-      bounds=TB_BOUNDS + '; batch of 0..4 arbitrary addresses, enumeration + batch <= 4'),
-    K('registries::binder::getters_agree', functions=[TB + 'is_token_bound', TB + 'linked_tokens', TB + 'get_token_by_index', TB + 'get_token_index'] + TB_RD,
-      bounds=TB_BOUNDS),
+      bounds='six shapes (tokens enumerated before, batch size): (0 never written, 2), (0, 4), (1, 3), (2, 2), (3, 1), (2, 0); all addresses '
+             'arbitrary u32 ids (duplicates inside the batch and already-bound tokens included); lengths concrete per shape, vector capacity 4'),
+    K('registries::binder::getters_agree', functions=[TB + 'is_token_bound', TB + 'linked_tokens'] + TB_RD, bounds=TB_BOUNDS),
+    K('registries::binder::getter_by_index_agrees', functions=[TB + 'get_token_by_index', TB + 'get_token_index'] + TB_RD, bounds=TB_BOUNDS + '; index full u32'),
+    K('registries::binder::getter_index_of_agrees', functions=[TB + 'get_token_by_index', TB + 'get_token_index'] + TB_RD, bounds=TB_BOUNDS),
     K('registries::binder::operations_accepted', must_succeed=True,
       functions=[TB + 'get_token_by_index', TB + 'get_token_index', TB + 'unbind_token', TB + 'bind_token'] + TB_RD,
       bounds=TB_BOUNDS + '; at most 3 tokens before; ledger sequence < 2^32 - 30 days'),
@@ -97,24 +106,79 @@ BINDER = [
       bounds=TB_EDGE + '; count in 99..102; ledger sequence < 2^32 - 30 days'),
 ]
 
+IR = 'rwa::identity_registry_storage::'
+IR_RD = [IR + 'storage::get_persistent_entry', IR + 'get_recovered_to']
+IR_BOUNDS = ('one call from an ARBITRARY stored state over two accounts satisfying the invariant (identity <=> profile, profile lists >= 1 country, '
+             'recovered => not registered): Identity / IdentityProfile / RecoveredTo of each account absent or present with arbitrary contents '
+             '(identity and link addresses full u32 ids, 1..2 country entries with arbitrary relation and an optional metadata map of 0..2 '
+             'entries with strings of 0..16 bytes); ledger/TTLs full u32; vector capacity 2, values of 48 words, NS=12, unwind 50')
+IRS = [
+    K('registries::irs::add_identity_step', 'reg_irs', functions=[IR + 'add_identity', IR + 'validate_country_data', IR + 'emit_identity_stored', IR + 'emit_country_data_event'] + IR_RD, bounds=IR_BOUNDS),
+    K('registries::irs::remove_identity_step', 'reg_irs', functions=[IR + 'remove_identity', IR + 'emit_identity_unstored', IR + 'emit_country_data_event'], bounds=IR_BOUNDS),
+    K('registries::irs::remove_identity_accepts', 'reg_irs', must_succeed=True, functions=[IR + 'remove_identity'], bounds=IR_BOUNDS + '; the account is registered'),
+    K('registries::irs::modify_identity_step', 'reg_irs', functions=[IR + 'modify_identity', IR + 'emit_identity_modified'], bounds=IR_BOUNDS),
+    K('registries::irs::recover_identity_step', 'reg_irs', functions=[IR + 'recover_identity', IR + 'emit_identity_recovered'] + IR_RD, bounds=IR_BOUNDS + '; old and new account symbolic among the two'),
+    K('registries::irs::recovered_account_stays_out', 'reg_irs', functions=[IR + 'recover_identity', IR + 'add_identity'] + IR_RD,
+      bounds=IR_BOUNDS + '; history: recover account 0 onto account 1, then a later invocation tries add_identity(account 0, ...) or recover_identity(1 -> 0)'),
+    K('registries::irs::getters_agree', 'reg_irs', functions=[IR + 'stored_identity', IR + 'get_identity_profile'] + IR_RD, bounds=IR_BOUNDS),
+    K('registries::irs::country_getters_agree', 'reg_irs', tier='thorough', functions=[IR + 'get_country_data', IR + 'get_country_data_entries', IR + 'get_identity_profile'] + IR_RD[:1],
+      bounds=IR_BOUNDS + '; witness index full u32'),
+    K('registries::irs::add_country_data_step', 'reg_irs', tier='thorough', functions=[IR + 'add_country_data_entries', IR + 'validate_country_data', IR + 'emit_country_data_event'] + IR_RD[:1],
+      bounds=IR_BOUNDS + '; added list of 0..2 entries with old + added <= 2'),
+    K('registries::irs::modify_country_data_step', 'reg_irs', tier='thorough', functions=[IR + 'modify_country_data', IR + 'validate_country_data', IR + 'get_identity_profile', IR + 'emit_country_data_event'],
+      bounds=IR_BOUNDS + '; index full u32'),
+    K('registries::irs::delete_country_data_step', 'reg_irs', tier='thorough', functions=[IR + 'delete_country_data', IR + 'get_identity_profile', IR + 'emit_country_data_event'],
+      bounds=IR_BOUNDS + '; index full u32'),
+]
+
+DM = 'rwa::extensions::doc_manager::'
+DM_BOUNDS = ('one call from an ARBITRARY stored state over 3 document names (symbolic pairwise different 32-byte values) satisfying the index invariant: '
+             '0..3 documents in bucket 0 in an arbitrary order, each with arbitrary uri (0..16 bytes), hash and timestamp, Count / bucket never written or '
+             'present; ledger time full u64; vector capacity 3, values of 48 words, NS=12, unwind 50')
+DOCS = [
+    K('registries::docs::set_document_step', 'reg_docs', functions=[DM + 'set_document', DM + 'get_document_count', DM + 'emit_document_updated'], bounds=DM_BOUNDS),
+    K('registries::docs::remove_document_step', 'reg_docs', functions=[DM + 'remove_document', DM + 'get_document_count', DM + 'emit_document_removed'], bounds=DM_BOUNDS),
+    K('registries::docs::getters_agree', 'reg_docs', functions=[DM + 'get_document', DM + 'get_document_by_index', DM + 'get_document_count', DM + 'get_documents'], bounds=DM_BOUNDS),
+    K('registries::docs::operations_accepted', 'reg_docs', must_succeed=True, functions=[DM + 'get_document', DM + 'get_document_by_index', DM + 'remove_document'],
+      bounds=DM_BOUNDS + '; the name is stored, index below the count; ledger sequence < 2^32 - 30 days'),
+]
+
+CM = 'rwa::compliance::storage::'
+CM_BOUNDS = ('one call, hook and bystander hook symbolic among the 5 hooks, HookModules(hook) = arbitrary pairwise different addresses (full u32 ids), '
+             'HookModules(other) = 0..3, entries absent (when empty) or present; ')
+CM_SMALL = CM_BOUNDS + '0..4 modules, vector capacity 4, unwind 14'
+CM_LIMIT = CM_BOUNDS + 'module count symbolic around MAX_MODULES = 20 (stated range), vector capacity 21, unwind 98'
+COMPLIANCE = [
+    K('registries::compliance::add_module_step', functions=[CM + 'add_module_to', CM + 'get_modules_for_hook', 'emit_module_added'], bounds=CM_SMALL + '; at most 3 before'),
+    K('registries::compliance::remove_module_step', functions=[CM + 'remove_module_from', CM + 'get_modules_for_hook', 'emit_module_removed'], bounds=CM_SMALL),
+    K('registries::compliance::getters_agree', functions=[CM + 'get_modules_for_hook', CM + 'is_module_registered'], bounds=CM_SMALL),
+    K('registries::compliance::add_module_limit_not_exceeded', 'reg_ci21', functions=[CM + 'add_module_to', CM + 'get_modules_for_hook'], bounds=CM_LIMIT + '; 18..20 modules before'),
+    K('registries::compliance::add_module_limit_reachable', 'reg_ci21', must_succeed=True, functions=[CM + 'add_module_to', CM + 'get_modules_for_hook'],
+      bounds=CM_LIMIT + '; 18..19 modules before, new module, ledger sequence < 2^32 - 30 days'),
+    K('registries::compliance::remove_module_at_limit', 'reg_ci21', tier='thorough', functions=[CM + 'remove_module_from', CM + 'get_modules_for_hook'], bounds=CM_LIMIT + '; 19..20 modules before'),
+]
+
 CHECKS = {
     'C20': {
-        'kani': CLAIM_ISSUER + CTI + BINDER,
+        'kani': CLAIM_ISSUER + CTI + BINDER + IRS + DOCS + COMPLIANCE,
         'bounds': 'claim-issuer keys: ' + CI_BOUNDS + ' | limit: ' + CI_LIMIT_BOUNDS + ' | claim topics and issuers: ' + CT_BOUNDS +
-                  ' | token binder: ' + TB_BOUNDS + ' | bucket edge: ' + TB_EDGE,
+                  ' | token binder: ' + TB_BOUNDS + ' | bucket edge: ' + TB_EDGE + ' | identity registry storage: ' + IR_BOUNDS +
+                  ' | documents: ' + DM_BOUNDS + ' | compliance modules: ' + CM_SMALL + ' / ' + CM_LIMIT,
         'outside_claim': ('histories are covered by induction over single calls from an arbitrary invariant-satisfying state (each invariant is assumed before and '
                           'asserted after every mutating call, the empty initial state satisfies it, and the getters are shown to describe the reference set/map '
                           'on every invariant-satisfying state); lists longer than the stated vector capacities, hence the limits MAX_KEYS_PER_TOPIC = 50, '
-                          'MAX_CLAIM_TOPICS = 15, MAX_ISSUERS = 50, MAX_TOKENS = 10000 themselves (their comparisons are on every growing path but never true within '
-                          'the capacities; only MAX_REGISTRIES_PER_KEY = 20 is exercised at the limit); token-binder batches (bind_tokens, linked_tokens) across '
-                          'the bucket boundary and more than two buckets; the smart-account context-rule registry (separate family); identity registry storage, '
-                          'document manager and compliance hook modules (no harness yet); the contract-level wrappers that add authorization (the storage '
-                          'functions under test document that they bypass authorization)'),
+                          'MAX_CLAIM_TOPICS = 15, MAX_ISSUERS = 50, MAX_TOKENS = 10000, MAX_DOCUMENTS = 5000, MAX_COUNTRY_ENTRIES = 15 themselves (their comparisons '
+                          'are on every growing path but never true within the capacities; MAX_REGISTRIES_PER_KEY = 20 and MAX_MODULES = 20 are exercised at the '
+                          'limit); token-binder batches (bind_tokens, linked_tokens) across the bucket boundary and more than two buckets; the document-manager '
+                          'bucket boundary (BUCKET_SIZE = 50 entries of 12 words) and URIs above 16 bytes (MAX_URI_LEN = 200); more than two accounts / two '
+                          'country entries per identity; the hook-execution functions of the compliance contract (C04 family); the smart-account context-rule '
+                          'registry (separate family); the contract-level wrappers that add authorization (the storage functions under test document that they '
+                          'bypass authorization)'),
         'stubs_and_assumes': [
             'the representation invariant of each registry is ASSUMED on the pre-state and ASSERTED on the post-state of every mutating call',
             'claim issuer: the registry contract asked by allow_key (has_claim_topic) answers arbitrarily or fails; pinned to "true" in the must-succeed harnesses',
             'token-binder bucket edge: 99 of the 100 addresses of bucket 0 are fixed pairwise different constants (the library only compares addresses)',
-            'token binder: the private key type TokenBinderStorageKey is mirrored by an enum with the same variant names (same storage keys)',
+            'token binder / identity registry storage: the private key types TokenBinderStorageKey / IRSStorageKey are mirrored by enums with the same variant names (same storage keys)',
             'must-succeed harnesses assume ledger sequence + 30 days fits u32 (TTL extension)',
         ],
     },
